@@ -374,6 +374,55 @@ def run_cli(ctx, plans):
         ctx.sample(dict(kind="cli_case", tool=j[0], argv=j[1], file=j[2].hex(), expected_exit=j[3], model_rets=j[5]["rets"]))
     return n
 
+# ------------------------------------------------------------------------------------------------ .lzma encoder
+def encoder_clause(ctx):
+    """AloneEnc.tla: TLC checks that the header written by alone_encoder.c is the contract's (least plausible
+    dictionary size, valid properties, unknown size) and prints the predicted header per requested size; sizes up
+    to 6 MiB are replayed into lzma_alone_encoder(), the result must decode through lzma_auto_decoder()."""
+    import ctypes as C
+    from harness.pydrv import lz, c16drv as drv
+    from harness.glue import alone
+    r = tlc.run("AloneEnc", workers=1, timeout=300)
+    ctx.add_tlc("AloneEnc (ASSUMEs over %s)" % "EncSizes", r, exhaustive=True)
+    if r.violation or not r.ok():
+        raise MachineryError("AloneEnc: %s\n%s" % (r.summary(), r.out[-1500:]))
+    plans = plans_from_tlc(r.out)
+    if len(plans) < 100:
+        raise MachineryError("AloneEnc printed only %d plans" % len(plans))
+    n = 0; seen = set()
+    for k, pl in enumerate(plans):
+        d = pl["dict"][0] + (pl["dict"][1] << 16)
+        if d > (6 << 20) or d < 4096:
+            continue
+        for (lc, lp, pb), hk in (((3, 0, 2), "header"), ((1, 2, 4), "header2")):
+            data = bytes(ctx.rng.randrange(4) * 37 for _ in range(ctx.rng.randrange(0, 200)))
+            o = lz.lzma_opts(0, dict_size=d, lc=lc, lp=lp, pb=pb)
+            c = lz.Coder()
+            if c.init("lzma_alone_encoder", C.byref(o)) != lz.OK:
+                raise MachineryError("lzma_alone_encoder init failed for dict_size %d" % d)
+            res = lz.run_coder(c, data)
+            c.end()
+            f = res["out"]
+            n += 1
+            ctx.case(key=("enc", d, lc, lp, pb, len(data)))
+            key = None
+            if res["ret"] != lz.STREAM_END:
+                key = "encoder:lzma:ret:%s" % lz.retname(res["ret"]); det = "encoder returned %s" % lz.retname(res["ret"])
+            elif list(f[:13]) != pl[hk]:
+                key = "encoder:lzma:header"; det = "dict_size %d lc/lp/pb %d/%d/%d: header %s, model %s" % (d, lc, lp, pb, f[:13].hex(), bytes(pl[hk]).hex())
+            else:
+                dr = drv.drive("auto", ["CONCATENATED"], f, [5, 8], "finish")
+                g = alone.parse(f)
+                if dr["rets"] != ["STREAM_END"] or dr["out"] != data or dr["total_in"] != len(f):
+                    key = "encoder:lzma:not-decodable"; det = "auto decoder: %s out %d/%d tin %d/%d" % (dr["rets"], len(dr["out"]), len(data), dr["total_in"], len(f))
+                elif g.verdict != "ok" or g.out != data or g.xz_utils_rejects:
+                    key = "encoder:lzma:glue-rejects"; det = "glue: %r" % g
+            if key and key not in seen:
+                seen.add(key)
+                ctx.violation(key, det, dict(kind="encoder", dict_size=d, lc=lc, lp=lp, pb=pb, data=data.hex(), file=f.hex()))
+    ctx.log("replayed %d predicted .lzma headers into lzma_alone_encoder" % n)
+    return n
+
 # ------------------------------------------------------------------------------------------------ main
 def replay_one(ctx, L):
     """./check C16 --replay FILE: run the recorded case again against the current tree"""
@@ -494,6 +543,7 @@ def run(ctx):
     ctx.log("glue judged %d file x decoder combinations" % nj)
     nc = run_cli(ctx, plans)
     ctx.log("ran %d tool invocations" % nc)
+    ne = encoder_clause(ctx)
     ctx.extra["plans"] = len(plans); ctx.extra["decoder_runs"] = n; ctx.extra["tool_runs"] = nc
     ctx.assumptions += [
         "LZMA1 payloads are abstract in the model (verdict level); the real payloads are made by harness/glue's range coder",
